@@ -647,7 +647,7 @@ func (f *Frame) instr(in ssa.Instruction, st *PState) {
 		var zero string
 		if _, ok := elem.Underlying().(*types.Array); ok {
 			a := elem.Underlying().(*types.Array)
-			zero = fmt.Sprintf("((as const %s) %s)", ArrS(SInt, ex.reg.SortOf(a.Elem())), ex.reg.ZeroValue(a.Elem()))
+			zero = ex.reg.ConstArray(SInt, ex.reg.SortOf(a.Elem()), ex.reg.ZeroValue(a.Elem()))
 		} else {
 			zero = ex.reg.ZeroValue(elem)
 		}
@@ -718,7 +718,7 @@ func (f *Frame) instr(in ssa.Instruction, st *PState) {
 		r := ex.alloc(st, i.Name())
 		mt := i.Type().Underlying().(*types.Map)
 		dn, ds, _, _, ks, _ := ex.mapHeaps(mt)
-		ex.setH(st, dn, ds, sto(ex.H(st, dn, ds), r, fmt.Sprintf("((as const %s) false)", ArrS(ks, SBool))))
+		ex.setH(st, dn, ds, sto(ex.H(st, dn, ds), r, ex.reg.ConstArray(ks, SBool, "false")))
 		f.vals[i] = Val{T: r, S: SInt, GT: i.Type()}
 	case *ssa.MakeSlice:
 		r := ex.alloc(st, i.Name())
@@ -732,7 +732,7 @@ func (f *Frame) instr(in ssa.Instruction, st *PState) {
 		}
 		es := ex.reg.SortOf(sl.Elem())
 		hn, hs := ex.sliceHeap(es)
-		ex.setH(st, hn, hs, sto(ex.H(st, hn, hs), r, fmt.Sprintf("((as const %s) %s)", ArrS(SInt, es), ex.reg.ZeroValue(sl.Elem()))))
+		ex.setH(st, hn, hs, sto(ex.H(st, hn, hs), r, ex.reg.ConstArray(SInt, es, ex.reg.ZeroValue(sl.Elem()))))
 		ss := ex.reg.SortOf(i.Type())
 		f.safety(st, "makeslice", i, fmt.Sprintf("(>= %s 0)", ln.T), "make with non-negative length")
 		f.setVal(i, fmt.Sprintf("(mk_%s %s 0 %s)", ss, r, ln.T), st)
